@@ -174,12 +174,20 @@ var checkGamma = ev.Register("gammainc", func(c *GammaCase) ev.Outcome {
 			classes = append(classes, "gamma-invalid")
 			continue
 		}
-		wp, wq := mathext.GammaIncReg(a, x), mathext.GammaIncRegComp(a, x)
+		var wp, wq float64
+		if x >= 1e4 {
+			// far tail (a <= 300): Q < exp(-9000), so P = 1 and Q = 0 to any float64
+			// tolerance, up to and including x = +Inf
+			wp, wq = 1, 0
+			classes = append(classes, "gamma-far-tail")
+		} else {
+			wp, wq = mathext.GammaIncReg(a, x), mathext.GammaIncRegComp(a, x)
+		}
 		if !(math.Abs(p-wp) <= tolAcc) || !(math.Abs(q-wq) <= tolAcc) {
 			return ev.Fail("GammaInc(%v,%v) = %.17g (reference %.17g), GammaIncComp = %.17g (reference %.17g)", a, x, p, wp, q, wq)
 		}
 		ev.MaxErr("gammainc-vs-mathext", math.Max(math.Abs(p-wp), math.Abs(q-wq))/tolAcc)
-		if isInt(a) && a <= 170 {
+		if isInt(a) && a <= 170 && x < 1e4 {
 			cq := gammaIntClosedQ(int(a), x)
 			if !(math.Abs(q-cq) <= tolAcc) || !(math.Abs(p-(1-cq)) <= tolAcc) {
 				return ev.Fail("integer a=%v x=%v: P=%.17g Q=%.17g, closed form Q=%.17g", a, x, p, q, cq)
@@ -437,7 +445,12 @@ func TestGammaInc(t *testing.T) {
 		n := rapid.IntRange(1, 6).Draw(rt, "nx")
 		for i := 0; i < n; i++ {
 			var x float64
-			switch rapid.IntRange(0, 6).Draw(rt, "xkind") {
+			switch rapid.IntRange(0, 8).Draw(rt, "xkind") {
+			case 7:
+				x = gen.LogUniform(rt, 1e4, 1e308, "xhuge")
+			case 8:
+				// where x^a, exp(-x) or x itself reach the limits of float64
+				x = rapid.SampledFrom([]float64{math.Inf(1), math.MaxFloat64, 1e300, 1e154, 1e100, 1e31, 1e16, 745, 710}).Draw(rt, "xlimit")
 			case 0:
 				x = gen.LogUniform(rt, 1e-300, 1e4, "xlog")
 			case 1, 2:
